@@ -414,3 +414,65 @@ func VerifC22_drain() {
 	verifAssert(verifC22.reads <= n, "never more reads than pipelined requests")
 	verifReached("c22-drain")
 }
+
+// ---- a request sleeping on a throttle does not outlive its connection ----
+
+// writeRequest sleeps until cxn.throttleUntil before writing. The property bounds every wait
+// by "throttles and disconnects produce errors, never ... waits beyond the configured
+// timeouts": the sleeper must end, with the right error, as soon as the connection dies (the
+// real die(), e.g. from a failed read of a pipelined request), its own context is cancelled, or
+// the client is closed — in each case WITHOUT the throttle timer firing (timers never fire in
+// the executor unless asked to). Which event happens, and whether it happens before the
+// request reaches writeRequest or while it sleeps, are chosen per path.
+func VerifC22_throttleWaitEndsOnDisconnect() {
+	cxn, conn := verifC22Cxn()
+	cl := cxn.cl
+	var clCancel context.CancelFunc
+	cl.ctx, clCancel = context.WithCancel(context.Background())
+	cl.reqFormatter = kmsg.NewRequestFormatter()
+	cl.bufPool = newBufPool()
+	cxn.throttleUntil.Store(time.Now().Add(time.Hour).UnixNano())
+	ctx, cancel := context.WithCancel(context.Background())
+	event := verifChoose(3)
+	early := verifChoose(2) == 0
+	fire := func() {
+		switch event {
+		case 0:
+			cxn.die()
+		case 1:
+			cancel()
+		case 2:
+			clCancel()
+		}
+	}
+	if early {
+		fire()
+	}
+	var err error
+	done := false
+	go func() {
+		_, _, _, _, _, err = cxn.writeRequest(ctx, time.Now(), kmsg.NewPtrMetadataRequest())
+		done = true
+	}()
+	verifRunAll()
+	if !early {
+		verifAssert(!done, "a throttled request is not written before the throttle ends")
+		fire()
+		verifRunAll()
+	}
+	verifAssert(done, "a request sleeping on a throttle ends as soon as its connection dies, its context is cancelled or the client closes")
+	if done {
+		switch event {
+		case 0:
+			verifAssert(err == errChosenBrokerDead, "a throttled request whose connection died fails with the dead-connection error (retried on a fresh connection)")
+			verifAssert(conn.closed == 1, "the dead connection was closed exactly once")
+		case 1:
+			verifAssert(err == context.Canceled, "a throttled request whose context was cancelled fails with the context's error")
+		case 2:
+			verifAssert(err == ErrClientClosed, "a throttled request fails with ErrClientClosed once the client is closed")
+		}
+	}
+	cancel()
+	clCancel()
+	verifReached("c22-throttle")
+}
